@@ -361,6 +361,14 @@ class CloseTask(MethodTask):
             add('close-does-not-raise', False, f'raises {p.exc_name()}')
             return
         add('state-is-CLOSED-on-return', state_code(c.state()) == CLOSED, scenario='close')
+        # "once close() has been called the state is CLOSED forever": the state is written before close() suspends for the first
+        # time - otherwise a connect in flight, a send or a fault handler running meanwhile still sees a live client
+        first_susp = next((i for i, e in enumerate(w.events) if e[0] == 'suspend'), None)
+        first_closed = next((i for i, e in enumerate(w.events) if e[0] == 'state'), None)
+        if first_susp is not None:
+            ok = first_closed is not None and first_closed < first_susp
+            add('CLOSED-is-set-before-close-first-suspends', z3.Or(c.state0.term == CLOSED, z3.BoolVal(ok)),
+                'close() awaits (callback / sleep / cancellation) while the state is not yet CLOSED', 'close-sets-closed-late')
         closes = w.of('writer.close')
         add('link-shut-when-a-writer-exists', z3.Implies(c.has_writer, z3.BoolVal(len(closes) == 1 and closes[0][1] is c.writer)), f'{len(closes)} writer.close calls', 'close')
         add('no-writer-no-close', z3.Implies(z3.Not(c.has_writer), z3.BoolVal(not closes)))
@@ -1027,3 +1035,83 @@ class BoundedScenarioTask(Task):
                 out['results'].append({'obligation': f'{self.prop}/ioclient/bounded-scenario[{n}]', 'kind': 'bounded', 'status': 'discharged',
                                        'backend': 'native-scenarios (bounded, not a proof)', 'seconds': round(time.time() - t0, 2)})
         return out
+
+
+# ---------------------------------------------------------------------------------------------
+# structural guarantees every coroutine relies on
+# ---------------------------------------------------------------------------------------------
+def lock_identity_lemmas(prop):
+    """The mutual-exclusion arguments (send lock: contiguity, connect lock: one attempt) rest on every task using the SAME
+    lock object for the life of the client: attributes initialised with asyncio.Lock() in a constructor are assigned
+    nowhere else (syntactic scan of nmea2000/ioclient.py)."""
+    import ast as _ast
+
+    def build(tier):
+        r = repo()
+        mod = r.load('ioclient')
+        locks = set()
+        sites = []
+        for cname, ci in mod.classes.items():
+            for mname, fi in ci.methods.items():
+                for n in _ast.walk(fi.node):
+                    tg = []
+                    if isinstance(n, _ast.Assign):
+                        tg, val = n.targets, n.value
+                    elif isinstance(n, (_ast.AnnAssign, _ast.AugAssign)):
+                        tg, val = [n.target], n.value
+                    elif isinstance(n, _ast.Delete):
+                        tg, val = n.targets, None
+                    for t in tg:
+                        for el in (t.elts if isinstance(t, (_ast.Tuple, _ast.List)) else [t]):
+                            if isinstance(el, _ast.Attribute) and isinstance(el.value, _ast.Name) and el.value.id == 'self':
+                                is_lock = val is not None and isinstance(val, _ast.Call) and _ast.unparse(val.func) in ('asyncio.Lock', 'Lock')
+                                if is_lock and mname == '__init__':
+                                    locks.add(el.attr)
+                                sites.append((cname, mname, el.attr, is_lock, n.lineno))
+        out = []
+        out.append(Obligation(f'{prop}/ioclient/send-lock-is-created-in-the-constructor', [], z3.BoolVal('_send_lock' in locks), kind='frame', meta={'note': f'lock attributes: {sorted(locks)}'}))
+        bad = [f'{c}.{m} line {ln}: self.{a} reassigned' for (c, m, a, is_lock, ln) in sites if a in locks and m != '__init__']
+        out.append(Obligation(f'{prop}/ioclient/lock-objects-are-never-replaced', [], z3.BoolVal(not bad), kind='frame', meta={'note': '; '.join(bad)[:300]}))
+        return out
+    return build
+
+
+class ConnectImplTask(MethodTask):
+    """_connect_impl of a client class: the new link replaces reader and writer; the serial client also starts from an
+    EMPTY reassembly buffer (bytes of the previous session must not be glued to the new stream)."""
+    method = '_connect_impl'
+
+    def __init__(self, prop, cls):
+        self.cls = cls
+        super().__init__(prop, None)
+        self.name = f'{prop}:{cls}._connect_impl'
+
+    def make(self, ex, r):
+        gw = {'ActisenseNmea2000Gateway': 'ACTISENSE', 'YachtDevicesNmea2000Gateway': 'YACHT_DEVICES'}.get(self.cls)
+        c = Client(ex, r, self.cls, gw_type=gw)
+        c.world.on_await = default_await(c, allow_cancel=False)
+        st = {'client': c, 'args': []}
+        if self.cls == 'WaveShareNmea2000Gateway':
+            old = ABuf(ex, tag='stale-buffer')
+            ex.assume(old.n <= 120)
+            c.obj.attrs['_buffer'] = GV.make([(z3.Bool('first_connect'), None), (z3.Not(z3.Bool('first_connect')), old)])
+            st['old_buffer'] = old
+        return st
+
+    def scenario(self):
+        return 'reconnect-mid-packet'
+
+    def check(self, p, st, add):
+        c, w = st['client'], st['client'].world
+        conn = w.of('connected')
+        if p.kind == 'raise':
+            add('raises-only-when-the-transport-fails', not conn or bool(w.of('fault')), f'raises {p.exc_name()} although the transport opened and no write failed')
+            return
+        add('one-transport-opened', len(conn) == 1, f'{len(conn)} connections opened')
+        if len(conn) == 1:
+            add('reader-and-writer-are-the-new-link', c.obj.attrs.get('reader') is conn[0][1] and c.obj.attrs.get('writer') is conn[0][2])
+        if self.cls == 'WaveShareNmea2000Gateway':
+            b = c.obj.attrs.get('_buffer')
+            empty = isinstance(b, (bytearray, bytes, SBytes)) and len(b) == 0
+            add('serial-session-starts-with-an-empty-buffer', empty and b is not st['old_buffer'],
+                f'after _connect_impl the pending buffer is {b!r}: bytes received before the reconnect are glued to the new stream', 'reconnect-mid-packet')
